@@ -7,7 +7,8 @@
    the SliceReader/Cursor semantics of the ByteReader interface (ReadAdapter == SliceReader is C13). *)
 From VBase Require Import MachInt.
 From VModel Require Import Codec.
-From VProofs Require Import CodecPrim CodecTypes CodecTotal CodecExamples.
+From VGen Require Serde Limits.
+From VProofs Require Import CodecPrim CodecTypes CodecTotal CodecGen CodecExamples.
 Open Scope Z_scope.
 
 (* ------------------------------------------------------------------------------- integers and vint64 *)
@@ -318,3 +319,79 @@ Theorem C12_read_Context_total : forall bs, is_bytes bs ->
   end.
 Proof. exact read_Context_total. Qed.
 Print Assumptions C12_read_Context_total.
+
+(* ------------------------------------------------- the hand model equals the code regenerated by rs2v *)
+(* coq/Gen/Serde.v and coq/Gen/Limits.v are regenerated from utils/core/src/serde/byte_{writer,reader}.rs,
+   air/src/options.rs, air/src/air/trace_info.rs, air/src/proof/context.rs, fri/src/proof.rs on every run.
+   The byte I/O skeleton (peek/read/write calls, the 9-byte test, slicing) stays in the hand model and is pinned
+   by source guards of the units; everything arithmetic below is the translated source. *)
+Theorem C12_gen_encoded_len : forall v, encoded_len v = Serde.serde_encoded_len v.
+Proof. exact encoded_len_gen. Qed.
+Print Assumptions C12_gen_encoded_len.
+
+Theorem C12_gen_encoded_len_no_overflow : forall v, Serde.serde_encoded_len_ok v = true.
+Proof. exact encoded_len_gen_no_overflow. Qed.
+Print Assumptions C12_gen_encoded_len_no_overflow.
+
+Theorem C12_gen_write_usize : forall v, write_usize v = write_usize_g v.
+Proof. exact write_usize_gen. Qed.
+Print Assumptions C12_gen_write_usize.
+
+Theorem C12_gen_write_usize_no_overflow : forall v, Serde.serde_write_usize_enc_ok v (Serde.serde_encoded_len v) = true.
+Proof. exact write_usize_gen_no_overflow. Qed.
+Print Assumptions C12_gen_write_usize_no_overflow.
+
+Theorem C12_gen_read_usize : forall bs, read_usize bs = read_usize_g bs.
+Proof. exact read_usize_gen. Qed.
+Print Assumptions C12_gen_read_usize.
+
+(* the vint64 round trip stated on the regenerated arithmetic *)
+Theorem C12_vint64_rt_gen : forall v rest, 0 <= v < 2 ^ 64 -> read_usize_g (write_usize_g v ++ rest) = Ok (v, rest).
+Proof. exact vint64_rt_gen. Qed.
+Print Assumptions C12_vint64_rt_gen.
+
+(* the constructors accept exactly when the conjunction of their translated asserts holds, hence wf_ProofOptions /
+   wf_TraceInfo / wf_Context are statements about the regenerated asserts and constants *)
+Theorem C12_gen_ProofOptions_new : forall nq bf gf fe ff rd, 0 <= rd < 2 ^ 64 ->
+  ProofOptions_new nq bf gf fe ff rd =
+  if Limits.lim_po_new_checks_ok nq bf gf ff rd
+  then Ok (mkPO (wrap 8 nq) (wrap 8 bf) (wrap 8 gf) fe (wrap 8 ff) (wrap 8 rd)) else Panic.
+Proof. exact ProofOptions_new_gen. Qed.
+Print Assumptions C12_gen_ProofOptions_new.
+
+Theorem C12_gen_TraceInfo_new : forall main aux rands length_ meta,
+  TraceInfo_new_multi_segment main aux rands length_ meta =
+  if Limits.lim_ti_new_checks_ok main aux rands length_ (len meta) then Ok (mkTI main aux rands length_ meta) else Panic.
+Proof. exact TraceInfo_new_gen. Qed.
+Print Assumptions C12_gen_TraceInfo_new.
+
+Theorem C12_gen_Context_new : forall modulus t o, 0 <= ti_length t -> 0 <= po_blowup_factor o ->
+  Context_new modulus t o =
+  if Limits.lim_ctx_new_checks_ok (ti_length t) (po_blowup_factor o) then Ok (mkCtx t modulus o) else Panic.
+Proof. exact Context_new_gen. Qed.
+Print Assumptions C12_gen_Context_new.
+
+Theorem C12_gen_limits :
+  Limits.lim_MAX_NUM_QUERIES = 255 /\ Limits.lim_MIN_BLOWUP_FACTOR = 2 /\ Limits.lim_MAX_BLOWUP_FACTOR = 128 /\
+  Limits.lim_MAX_GRINDING_FACTOR = 32 /\ Limits.lim_FRI_MIN_FOLDING_FACTOR = 2 /\ Limits.lim_FRI_MAX_FOLDING_FACTOR = 16 /\
+  Limits.lim_FRI_MAX_REMAINDER_DEGREE = 255 /\ Limits.lim_MIN_TRACE_LENGTH = 8 /\ Limits.lim_MAX_TRACE_WIDTH = 255 /\
+  Limits.lim_MAX_META_LENGTH = 65535 /\ Limits.lim_MAX_RAND_SEGMENT_ELEMENTS = 255.
+Proof. exact limits_gen. Qed.
+Print Assumptions C12_gen_limits.
+
+(* the readers: byte reads (hand) around the translated validation code *)
+Theorem C12_gen_read_ProofOptions : forall bs, is_bytes bs -> read_ProofOptions bs = read_ProofOptions_g bs.
+Proof. exact read_ProofOptions_gen. Qed.
+Print Assumptions C12_gen_read_ProofOptions.
+
+Theorem C12_gen_read_TraceInfo : forall bs, is_bytes bs -> read_TraceInfo bs = read_TraceInfo_g bs.
+Proof. exact read_TraceInfo_gen. Qed.
+Print Assumptions C12_gen_read_TraceInfo.
+
+Theorem C12_gen_read_Context : forall bs, read_Context bs = read_Context_g bs.
+Proof. exact read_Context_gen. Qed.
+Print Assumptions C12_gen_read_Context.
+
+Theorem C12_gen_read_FriProof : forall bs, read_FriProof bs = read_FriProof_g bs.
+Proof. exact read_FriProof_gen. Qed.
+Print Assumptions C12_gen_read_FriProof.
